@@ -403,6 +403,8 @@ impl<'e> EventLoop<'e> {
             std::thread::Builder::new()
                 .name(thread_name.clone())
                 .spawn(move || {
+                    #[cfg(feature = "verif")]
+                    crate::verif::point("loop:thread-start");
                     let consumer =
                         unsafe { BeanFactory::get_mut_bean::<Self>(bean_name_in_thread) }
                             .unwrap_or_else(|| panic!("bean {bean_name_in_thread} not exist !"));
